@@ -52,6 +52,23 @@ var targets = []target{
 	{"server/proxy/proxy.go", "Manager", "Del"},
 	{"pkg/config/v1/proxy.go", "ProxyBaseConfig", "UnmarshalFromMsg"},
 	{"pkg/util/net/conn.go", "wrapQuicStream", "Close"},
+	{"server/group/http.go", "HTTPGroupController", "Register"},
+	{"server/group/http.go", "HTTPGroupController", "UnRegister"},
+	{"server/group/http.go", "HTTPGroup", "Register"},
+	{"server/group/http.go", "HTTPGroup", "UnRegister"},
+	{"server/group/tcp.go", "TCPGroupCtl", "Listen"},
+	{"server/group/tcp.go", "TCPGroup", "Listen"},
+	{"server/group/tcp.go", "TCPGroup", "CloseListener"},
+	{"server/group/tcpmux.go", "TCPMuxGroupCtl", "Listen"},
+	{"server/group/tcpmux.go", "TCPMuxGroup", "HTTPConnectListen"},
+	{"server/group/tcpmux.go", "TCPMuxGroup", "CloseListener"},
+	{"server/proxy/http.go", "HTTPProxy", "Run"},
+	{"pkg/ssh/server.go", "TunnelServer", "Run"},
+	{"server/proxy/udp.go", "UDPProxy", "Close"},
+	{"pkg/msg/handler.go", "Dispatcher", "sendLoop"},
+	{"pkg/msg/handler.go", "Dispatcher", "readLoop"},
+	{"pkg/msg/handler.go", "Dispatcher", "Send"},
+	{"server/control.go", "Control", "registerMsgHandlers"},
 	{"pkg/util/net/conn.go", "CloseNotifyConn", "Close"},
 	{"pkg/util/net/conn.go", "StatsConn", "Close"},
 }
